@@ -55,7 +55,8 @@ def hermitian_configs(tier, hermitian=True):
         if not hermitian and kw.get("spectrum") in ("sym", "symdeg"):
             # complex symbolic gaps (atoms |E_a-E_b|^2) are only tractable to 2nd order (probe: order 3 exceeds 300 s / 6 GB);
             # the real symbolic spectrum keeps the full order, complex exact spectra cover complex energies at higher order.
-            cfgs.append(dict(kw, complex_spectrum=False))
+            # non-Hermitian symbolic spectra on N = 4 are only tractable to 2nd order (nlsat timeouts at order 3)
+            cfgs.append(dict(kw, complex_spectrum=False, max_order=kw["max_order"] if sum(kw["sizes"]) <= 3 else min(2, kw["max_order"])))
             if sum(kw["sizes"]) <= 3:
                 cfgs.append(dict(kw, complex_spectrum=True, max_order=min(2, kw["max_order"])))
             return
@@ -146,8 +147,17 @@ def hermitian_configs(tier, hermitian=True):
                 add(carrier="B", sizes=sizes, spectrum=RAT_SPECTRA[N], terms=[[1], [2]],
                     max_order=4 if N <= 4 else 3)
                 if N <= 4:
-                    add(carrier="B", sizes=sizes, spectrum="sym", terms=[[1]], max_order=3 if N <= 3 else 2)
+                    add(carrier="B", sizes=sizes, spectrum="sym", terms=[[1]], max_order=3)
                     add(carrier="B", sizes=sizes, spectrum="symdeg", terms=[[1]], max_order=3)
+        # N = 6 (exact rational spectrum), all layouts with 2-3 blocks; four and five blocks
+        for sizes in compositions_of(6, 3):
+            if len(sizes) > 1:
+                add(carrier="B", sizes=sizes, spectrum=RAT_SPECTRA[6], terms=[[1], [2]], max_order=3)
+        for sizes in ([1, 1, 1, 2], [1, 1, 2, 1], [1, 2, 1, 1], [2, 1, 1, 1], [1, 1, 1, 1, 1], [2, 1, 1, 2]):
+            add(carrier="B", sizes=sizes, spectrum=RAT_SPECTRA[sum(sizes)], terms=[[1], [2]], max_order=4 if sum(sizes) <= 5 else 3)
+        add(carrier="B", sizes=[3, 3], spectrum=RAT_SPECTRA[6], terms=[[1], [2]], max_order=4)
+        add(carrier="B", sizes=[2, 2], spectrum=RAT_SPECTRA[4], terms=[[1, 0], [0, 1], [1, 1]], max_order=4)
+        add(carrier="B", sizes=[1, 1, 2], spectrum=RAT_SPECTRA[4], terms=[[1, 0], [0, 1], [2, 0]], max_order=4)
         add(carrier="B", sizes=[1, 1, 1, 1], spectrum=RAT_SPECTRA[4], terms=[[1], [2]], max_order=4)
         add(carrier="B", sizes=[1, 1, 1, 1], spectrum="sym", terms=[[1]], max_order=2)
         for sizes in [[1, 1], [1, 2], [2, 1], [1, 1, 1]]:
@@ -177,7 +187,8 @@ def hermitian_configs(tier, hermitian=True):
         add(carrier="A", sizes=[1, 1, 1], spectrum=["0", "1", "2"], terms=[[1], [2]], max_order=4)
         if not hermitian:
             for sizes in compositions_of(4, 3):
-                add(carrier="B", sizes=sizes, spectrum=CPLX_SPECTRA[4], terms=[[1], [2]], max_order=3)
+                if len(sizes) > 1:
+                    add(carrier="B", sizes=sizes, spectrum=CPLX_SPECTRA[4], terms=[[1], [2]], max_order=3)
             for mask in ([[0, 1, 1], [0, 0, 0], [0, 1, 0]], [[0, 0, 0], [1, 0, 0], [1, 1, 0]]):
                 add(carrier="A", sizes=[3], spectrum=["0", "1", "2"], terms=[[1]], max_order=3, fd={"0": mask})
                 add(carrier="A", sizes=[3, 1], spectrum=["0", "2", "2", "4"], terms=[[1]], max_order=3,
